@@ -18,12 +18,15 @@ contract("C19.cache_lock_enter",
          params={"self": "CacheLock"}, returns=None, enc="native",
          raises={"CacheException": "True"},
          modifies=["self.cache_lock", "self.current_timestamp"],
-         ghost={"sets": {"cache_locked": "True"}, "init": {"fs_mkdir_may_clash": "False"}},
+         ghost={"sets": {"cache_locked": "True"}, "init": {"fs_mkdir_may_clash": "False", "lock_wait_is_the_short_constant": "False"}},
          ensures={
              "C19.L1.returns_only_with_lock_held": "self.cache_lock is not None and self.cache_lock.held",
              # "runs concurrently in several processes ... no later or concurrent load fails": two first users may both find the cache
              # folder missing - creating it must tolerate that the other one was faster
              "C19.L1.creating_the_folder_tolerates_a_concurrent_creator": "not fs_mkdir_may_clash",
+             # "a holder that cannot get the lock within its timeout gives up": the wait is a short constant of its own (seconds), never
+             # the refresh interval or another long, configurable time
+             "C19.L1.lock_wait_is_a_short_constant": "lock_wait_is_the_short_constant",
          })
 
 contract("C19.cache_lock_exit",
